@@ -574,3 +574,66 @@ func (c *Cluster) AuditCache(ref *Ref, pkg *gen.Pkg) (out []Finding, facts Audit
 	}
 	return
 }
+
+// CheckInitialSnapshots compares the initial store snapshots a development-mode request asked for
+// (debug_initial_store_snapshot_for_modules) with the reference content just before the first
+// delivered block of the linear phase.
+func CheckInitialSnapshots(res *Result, ref *Ref, pkg *gen.Pkg) (out []Finding, compared int) {
+	if len(res.Spec.Debug) == 0 || res.Err != nil {
+		return
+	}
+	sess := res.Session()
+	if sess == nil {
+		return
+	}
+	gate := sess.ResolvedStartBlock
+	if sess.LinearHandoffBlock > gate {
+		gate = sess.LinearHandoffBlock
+	}
+	if res.Spec.Stop != 0 && gate >= res.Spec.Stop {
+		return // no linear phase, no snapshot
+	}
+	got := map[string]map[string][]byte{}
+	complete := false
+	for _, r := range res.Responses {
+		if d := r.GetDebugSnapshotData(); d != nil {
+			m := got[d.ModuleName]
+			if m == nil {
+				m = map[string][]byte{}
+				got[d.ModuleName] = m
+			}
+			for _, dl := range d.Deltas {
+				m[dl.Key] = dl.NewValue
+			}
+		}
+		if r.GetDebugSnapshotComplete() != nil {
+			complete = true
+		}
+	}
+	if !complete {
+		out = append(out, finding("snapshot/never-completed", "initial snapshots were requested for %v but no snapshot-complete message was sent", res.Spec.Debug))
+		return
+	}
+	for _, name := range res.Spec.Debug {
+		pr := pkg.Progs[name]
+		if pr == nil {
+			continue
+		}
+		pair := model.Pair{Policy: pr.Policy, VT: pr.VT}
+		snap := StoreSnap{KV: got[name]}
+		if snap.KV == nil {
+			snap.KV = map[string][]byte{}
+		}
+		g, err := TypedStore(pair, snap)
+		if err != nil {
+			out = append(out, finding("snapshot/untyped", "initial snapshot of %s: %v", name, err))
+			continue
+		}
+		w, _ := TypedStore(pair, ref.RefStoreAt(name, gate))
+		compared++
+		if d := DiffTyped(g, w); d != "" {
+			out = append(out, finding("snapshot/content-differs", "initial snapshot of store %s (%s) sent before block %d differs from the sequential reference (got vs reference): %s", name, pair, gate, d))
+		}
+	}
+	return
+}
